@@ -57,8 +57,8 @@ pub const OPERATORS: &[(&str, (OpType, &[ArgType]))] = &[
     ("BX", (OpType::Compat, &[])),
     ("EX", (OpType::Compat, &[])),
     // graphics state, Table 56, page 164
-    ("q", (OpType::GeneralGraphics, &[])),
-    ("Q", (OpType::GeneralGraphics, &[])),
+    ("q", (OpType::SpecialGraphics, &[])),
+    ("Q", (OpType::SpecialGraphics, &[])),
     (
         "cm",
         (
